@@ -53,6 +53,7 @@ type c19Rig struct {
 	names    []string
 	pools    [][]string // per name: candidate IPs
 	port     int
+	ports    []int // per host name: the two names of a rig use different ports
 	res      *DynamicHostResolver
 	rb       *RoundRobinBackend
 	proxy    *Proxy
@@ -72,7 +73,7 @@ type c19Host struct {
 
 func newC19Rig(proto string, nNames int, c int) (*c19Rig, error) {
 	n := labReserve()
-	r := &c19Rig{proto: proto, port: 5080, hub: newLabHub(), eps: map[string]*labEP{}, bar: &c19Barrier{ch: make(chan struct{}, 1)}, retained: map[string]Backend{}}
+	r := &c19Rig{proto: proto, port: 5080, ports: []int{5080, 5081}, hub: newLabHub(), eps: map[string]*labEP{}, bar: &c19Barrier{ch: make(chan struct{}, 1)}, retained: map[string]Backend{}}
 	if nNames == 1 {
 		r.names = []string{fmt.Sprintf("pool-%s-%d.verif.invalid", proto, c)}
 		r.pools = [][]string{{n.ip(c, 1), n.ip(c, 2), n.ip(c, 3), n.ip(c, 4), n.ip(c, 5)}}
@@ -80,14 +81,14 @@ func newC19Rig(proto string, nNames int, c int) (*c19Rig, error) {
 		r.names = []string{fmt.Sprintf("pool-a-%s-%d.verif.invalid", proto, c), fmt.Sprintf("pool-b-%s-%d.verif.invalid", proto, c)}
 		r.pools = [][]string{{n.ip(c, 1), n.ip(c, 2), n.ip(c, 3)}, {n.ip(c, 4), n.ip(c, 5)}}
 	}
-	for _, pool := range r.pools {
+	for pi, pool := range r.pools {
 		for _, ip := range pool {
 			var ep *labEP
 			var err error
 			if proto == "udp" {
-				ep, err = r.hub.udpEP("backend", ip, r.port)
+				ep, err = r.hub.udpEP("backend", ip, r.ports[pi])
 			} else {
-				ep, err = r.hub.tcpEP("backend", ip, r.port)
+				ep, err = r.hub.tcpEP("backend", ip, r.ports[pi])
 			}
 			if err != nil {
 				return nil, err
@@ -104,11 +105,11 @@ func newC19Rig(proto string, nNames int, c int) (*c19Rig, error) {
 	r.res = NewDynamicHostResolver(3600)
 	r.res.Stop()
 	var urls []string
-	for _, name := range r.names {
+	for ni, name := range r.names {
 		r.res.Lock()
 		r.res.hostIPs[name] = NewAddressWithCallback()
 		r.res.Unlock()
-		urls = append(urls, fmt.Sprintf("%s://%s:%d", proto, name, r.port))
+		urls = append(urls, fmt.Sprintf("%s://%s:%d", proto, name, r.ports[ni]))
 	}
 	dynamicHostResolver = r.res
 	rb, err := CreateRoundRobinBackend(":0", urls, func(conn net.Conn) {})
@@ -167,9 +168,9 @@ func (r *c19Rig) inLoop(fn func()) error {
 
 func (r *c19Rig) expected() []string {
 	var out []string
-	for _, h := range r.model {
+	for ni, h := range r.model {
 		for _, ip := range h.addrs {
-			out = append(out, fmt.Sprintf("%s:%d", ip, r.port))
+			out = append(out, fmt.Sprintf("%s:%d", ip, r.ports[ni]))
 		}
 	}
 	sort.Strings(out)
@@ -317,8 +318,9 @@ func (r *c19Rig) checkBehaviour() string {
 	for _, a := range want {
 		member[a] = true
 	}
-	for _, pool := range r.pools {
+	for pi, pool := range r.pools {
 		for _, ip := range pool {
+			port := r.ports[pi]
 			r.dialogN++
 			id := fmt.Sprintf("c19d%d", r.dialogN)
 			resp, err := ParseMessage(bufio.NewReader(strings.NewReader(fmt.Sprintf("SIP/2.0 200 OK\r\nVia: SIP/2.0/UDP 127.0.0.3:5999;branch=z9hG4bK%s\r\nFrom: <sip:a@a.example>;tag=f%s\r\nTo: <sip:b@b.example>;tag=t%s\r\nCall-ID: %s\r\nCSeq: 1 INVITE\r\nContent-Length: 0\r\n\r\n", id, id, id, id))))
@@ -329,12 +331,12 @@ func (r *c19Rig) checkBehaviour() string {
 			if err != nil {
 				return "harness: " + err.Error()
 			}
-			r.proxy.HandleRawMessage(NewRawMessage(ip, r.port, &c19Barrier{ch: make(chan struct{}, 1)}, false, resp))
+			r.proxy.HandleRawMessage(NewRawMessage(ip, port, &c19Barrier{ch: make(chan struct{}, 1)}, false, resp))
 			pinned := false
 			if err := r.inLoop(func() { _, pinned = r.proxy.dialogBasedBackends.backends[dlg] }); err != nil {
 				return err.Error()
 			}
-			addr := fmt.Sprintf("%s:%d", ip, r.port)
+			addr := fmt.Sprintf("%s:%d", ip, port)
 			if pinned != member[addr] {
 				return fmt.Sprintf("a dialog-creating response from %s was attributed to a backend: %v; %s is in the rotation: %v (rotation %v)", addr, pinned, addr, member[addr], want)
 			}
@@ -355,7 +357,7 @@ func c19OutcomeString(ni int, ips []string, fail bool) string {
 }
 
 func TestC19(t *testing.T) {
-	V.Rule("unit with real sockets: sequences of resolution outcomes (failure, or success with any duplicate-free address set incl. the empty one, order drawn) fed through the resolver's own addressResolved into the real rotation and a real Proxy, with quiescence between steps - exhaustively all sequences up to length 4 (thorough: 5) over the 8 subsets of 3 addresses + failure from the blank state, randomly up to length 60 over the subsets of 5 addresses with one host name or two host names (disjoint pools) feeding the same rotation, udp and tcp backends. Reference machine per name: success => addrs := S, failed := 0; failure => failed++ and iff failed > 3 and addrs non-empty: addrs := {}, failed := 0. After every step: rotation membership and the proxy's backend-address index equal the union of the model's sets; at sequence ends and drawn steps also behaviourally: 2k dispatches reach exactly the k harness sockets at those addresses twice each, vanished backends are closed, a dialog-creating response from address X is attributed iff X is a member. non-trivial = sequence with >= 3 failures in a row after a non-empty success, or a success that both adds and removes; distinct by sequence")
+	V.Rule("unit with real sockets: sequences of resolution outcomes (failure, or success with any duplicate-free address set incl. the empty one, order drawn) fed through the resolver's own addressResolved into the real rotation and a real Proxy, with quiescence between steps - exhaustively all sequences up to length 4 (thorough: 5) over the 8 subsets of 3 addresses + failure from the blank state, randomly up to length 60 over the subsets of 5 addresses with one host name or two host names (disjoint pools, different ports) feeding the same rotation, udp and tcp backends. Reference machine per name: success => addrs := S, failed := 0; failure => failed++ and iff failed > 3 and addrs non-empty: addrs := {}, failed := 0. After every step: rotation membership and the proxy's backend-address index equal the union of the model's sets; at sequence ends and drawn steps also behaviourally: 2k dispatches reach exactly the k harness sockets at those addresses twice each, vanished backends are closed, a dialog-creating response from address X is attributed iff X is a member. non-trivial = sequence with >= 3 failures in a row after a non-empty success, or a success that both adds and removes; distinct by sequence")
 	V.Require("4th failure empties", "3 failures tolerated", "success adds and removes", "same-set success between failures", "two host names", "tcp backends", "udp backends", "behaviour checked")
 	c := 200
 
